@@ -6,6 +6,7 @@ import (
 	"encoding/hex"
 	"fmt"
 	"reflect"
+	"strconv"
 	"testing"
 
 	"github.com/google/go-tdx-guest/abi"
@@ -156,6 +157,74 @@ func fixedPart(name string) uint64 {
 	return 0
 }
 
+func c09Truncations(t *testing.T) {
+	for wi, al := range []int{0, 32} {
+		q := gen.RandomRefQuote(gen.NewStream(gen.Seed(), fmt.Sprint("c09trunc", wi)), al, 40, 5*wi)
+		b := q.Encode()
+		for n := 0; n <= len(b); n++ {
+			if !gen.ShardOwns(n) {
+				continue
+			}
+			c09Check(t, b[:n], fmt.Sprintf("truncation to %d of %d", n, len(b)))
+		}
+	}
+	gen.Exhaustive("all truncation lengths of 2 valid quotes", true)
+}
+
+func c09SizeBoundaries(t *testing.T) {
+	al := 32
+	q := gen.RandomRefQuote(gen.NewStream(gen.Seed(), "c09size"), al, 60, 0)
+	base := q.Encode()
+	fields := gen.SizeFields(al)
+	i := 0
+	for _, f := range fields {
+		for _, v := range boundaryVals(fixedPart(f.Name), getLE(base, f.Off, f.Len)) {
+			// singles
+			b := append([]byte{}, base...)
+			putLE(b, f.Off, f.Len, v)
+			if gen.ShardOwns(i) {
+				c09Check(t, b, fmt.Sprintf("%s=%#x", f.Name, v))
+			}
+			i++
+			// pairs with every other size field (types excluded to keep it quadratic only in sizes)
+			for _, g := range fields {
+				if g.Off <= f.Off || g.Len != 4 && g.Name != "auth_size" {
+					continue
+				}
+				for _, v2 := range boundaryVals(fixedPart(g.Name), getLE(base, g.Off, g.Len)) {
+					b2 := append([]byte{}, b...)
+					putLE(b2, g.Off, g.Len, v2)
+					if gen.ShardOwns(i) {
+						c09Check(t, b2, fmt.Sprintf("%s=%#x,%s=%#x", f.Name, v, g.Name, v2))
+					}
+					i++
+				}
+			}
+		}
+	}
+	gen.Exhaustive("boundary values of every size/type field, singly and in pairs", true)
+}
+
+// TestC09WordSize is the part of the check whose outcome could depend on the width of int: it is also built and run
+// for a 32-bit target (GOARCH=386) where that is possible.
+func TestC09WordSize(t *testing.T) {
+	gen.Direct(t, "truncations", c09Truncations)
+	gen.Direct(t, "size-field-boundaries", c09SizeBoundaries)
+	gen.Prop(t, "random-size-fields", gen.N(3000, 100000), func(t *rapid.T) {
+		s := gen.NewStream(rapid.Uint64().Draw(t, "content"), "c09w")
+		al := rapid.SampledFrom([]int{0, 1, 32, 300}).Draw(t, "auth")
+		b := gen.RandomRefQuote(s, al, rapid.SampledFrom([]int{0, 10, 2000}).Draw(t, "chain"), rapid.SampledFrom([]int{0, 7}).Draw(t, "extra")).Encode()
+		fields := gen.SizeFields(al)
+		for i, n := 0, rapid.IntRange(1, 3).Draw(t, "edits"); i < n; i++ {
+			f := fields[rapid.IntRange(0, len(fields)-1).Draw(t, "field")]
+			v := rapid.OneOf(rapid.Uint64Range(0, 1<<32-1), rapid.SampledFrom([]uint64{0x7fffffff, 0x80000000, 0x80000001, 0xfffffffe, 0xffffffff, 0x7ffffb00, 0x80000400})).Draw(t, "value")
+			putLE(b, f.Off, f.Len, v)
+		}
+		c09Check(t, b, "random size fields")
+		gen.Class(fmt.Sprintf("word-size:int-is-%d-bits", strconv.IntSize))
+	})
+}
+
 func TestC09(t *testing.T) {
 	replayDir(t, "C09")
 	// (a1) rapid: byte strings derived from structurally valid quotes by one of several alterations.
@@ -250,52 +319,8 @@ func TestC09(t *testing.T) {
 	})
 
 	// (a2) exhaustive: every truncation length of two valid quotes, every boundary value of each field.
-	gen.Direct(t, "truncations", func(t *testing.T) {
-		for wi, al := range []int{0, 32} {
-			q := gen.RandomRefQuote(gen.NewStream(gen.Seed(), fmt.Sprint("c09trunc", wi)), al, 40, 5*wi)
-			b := q.Encode()
-			for n := 0; n <= len(b); n++ {
-				if !gen.ShardOwns(n) {
-					continue
-				}
-				c09Check(t, b[:n], fmt.Sprintf("truncation to %d of %d", n, len(b)))
-			}
-		}
-		gen.Exhaustive("all truncation lengths of 2 valid quotes", true)
-	})
-	gen.Direct(t, "size-field-boundaries", func(t *testing.T) {
-		al := 32
-		q := gen.RandomRefQuote(gen.NewStream(gen.Seed(), "c09size"), al, 60, 0)
-		base := q.Encode()
-		fields := gen.SizeFields(al)
-		i := 0
-		for _, f := range fields {
-			for _, v := range boundaryVals(fixedPart(f.Name), getLE(base, f.Off, f.Len)) {
-				// singles
-				b := append([]byte{}, base...)
-				putLE(b, f.Off, f.Len, v)
-				if gen.ShardOwns(i) {
-					c09Check(t, b, fmt.Sprintf("%s=%#x", f.Name, v))
-				}
-				i++
-				// pairs with every other size field (types excluded to keep it quadratic only in sizes)
-				for _, g := range fields {
-					if g.Off <= f.Off || g.Len != 4 && g.Name != "auth_size" {
-						continue
-					}
-					for _, v2 := range boundaryVals(fixedPart(g.Name), getLE(base, g.Off, g.Len)) {
-						b2 := append([]byte{}, b...)
-						putLE(b2, g.Off, g.Len, v2)
-						if gen.ShardOwns(i) {
-							c09Check(t, b2, fmt.Sprintf("%s=%#x,%s=%#x", f.Name, v, g.Name, v2))
-						}
-						i++
-					}
-				}
-			}
-		}
-		gen.Exhaustive("boundary values of every size/type field, singly and in pairs", true)
-	})
+	gen.Direct(t, "truncations", c09Truncations)
+	gen.Direct(t, "size-field-boundaries", c09SizeBoundaries)
 
 	// (b) messages: structurally valid messages with arbitrary contents.
 	gen.Prop(t, "messages", gen.N(15000, 1000000), func(t *rapid.T) {
